@@ -1210,8 +1210,9 @@ void process_io () {
         }
     }
   
-  /* Flush console user output if connected (console is always writable) */
-  if (all_users[0])
+  /* Flush console user output if connected (console is always writable).
+   * all_users is not allocated before the first connection: a timer wake-up of an idle driver gets here. */
+  if (all_users && all_users[0])
     flush_message (all_users[0]);
   /*
   for (i = 1; i < max_users; i++) {
